@@ -308,7 +308,7 @@ func c17Damage(c *Case) {
 			}
 		case t.K == xref.TName && !t.Op && (i+1 >= len(toks) || toks[i+1].S != "("):
 			// a name test: malformed qualified names
-			for _, bad := range []string{"p::" + t.S, ":" + t.S, t.S + ":", t.S + ": b", "p:" + ":" + t.S, "p: " + t.S} {
+			for _, bad := range []string{"p::" + t.S, ":" + t.S, t.S + ":", t.S + ": b", "p:" + ":" + t.S, "p: " + t.S, "p :" + t.S, "p\t:" + t.S, "p : " + t.S} {
 				if i > 0 && toks[i-1].S == "::" && strings.HasPrefix(bad, "p::") {
 					continue
 				}
